@@ -48,7 +48,8 @@ Definition lookup (p : path) (m : fsmap) : option node :=
 Fixpoint underb (base p : path) : bool :=
   path_eqb base p || match p with [] => false | _ :: par => underb base par end.
 
-Definition set_node (p : path) (n : node) (m : fsmap) : fsmap := (p, n) :: m.
+Definition set_node (p : path) (n : node) (m : fsmap) : fsmap :=
+  (p, n) :: filter (fun e => negb (path_eqb p (fst e))) m.
 Definition remove_subtree (p : path) (m : fsmap) : fsmap :=
   filter (fun e => negb (underb p (fst e))) m.
 
